@@ -474,6 +474,14 @@ RAW_FORMS += [
     ("reduce-callback-widens-the-accumulator", 'let r = reduce(func (acc, x) => {count = acc.count + 1, last = x}, {count = 0}, [1, 2]);\nlet v = r.last + 1;'),
     ("reduce-callback-widens-the-accumulator-over-tuple", 'let r = reduce(func (acc, k, x) => {count = acc.count + 1, last = x}, {count = 0}, {p = 1});\nlet v = r.last + 1;'),
 ]
+RAW_FORMS += [
+    # fifth-round reports
+    ("functions-of-unlike-parameter-names-joined-in-a-list", 'let a = {x = 1};\nlet fs = [func (a) => a] + [func (b) => b + 1];\nlet r = a.x + 1;'),
+    ("functions-of-unlike-parameter-names-in-select-arms", 'let a = {x = 1};\nlet f = select ("k", func (a) => a) => {k = func (b) => b + 1};\nlet r = a.x + f(1);'),
+    ("fail-message-out-of-a-select-in-an-unused-default", 'let msg = select ("a", "d") => {a = "m"};\nlet r = select ("x", fail msg) => {x = 1};\nlet u = r + 1;'),
+    ("fail-message-out-of-reduce-in-an-unused-default", 'let msg = reduce(func (acc, s) => acc + s, "", ["a", "b"]);\nlet r = select ("x", fail msg) => {x = 1};\nlet u = r + 1;'),
+    ("function-guards-a-selection-with-is", 'let f = func (t) => select (t is "tuple", 0) => {true = t.x};\nlet r = f(1) + 1;'),
+]
 RAW_FILES = {"std/lists.ucg": "let unrelated = 1;\n", "c07lib/a.ucg": 'let b = import "./b.ucg";\nlet v = b.val + 1;\n', "c07lib/b.ucg": "let val = 41;\n", "b.ucg": 'let val = "forty-one";\n',
              "c07lib/c.ucg": 'let d = import "./d.ucg";\nlet v = d.only_here;\n', "c07lib/d.ucg": "let only_here = 1;\n", "d.ucg": "let other = 2;\n",
              "c07data.txt": "41", "c07data.json": '{"v": 41}', "c07num.json": "41", "c07list.json": "[41, 42]", "c07data.yaml": "v: 41\n", "c07data.toml": "v = 41\n"}
